@@ -1,17 +1,643 @@
 /-
   C01 — property theorems over the request pipeline model (`Model/Req.lean`).
-  (being extended; helper lemmas live in `Lemmas/Req*.lean`)
+  Vocabulary (`inValues`, `outValues`, `WFReq`, `nominated`, `hopByHopLower`, `managedLower`,
+  `hostOf`, `effScheme`, …) is in `Model/ReqSpec.lean`; helper lemmas in `Lemmas/Req*.lean`.
+
+  All clauses are of the form `processRequest cfg ctx r = .forwarded hop out → …`.  Clauses 3–9 are
+  proved for `cfg.rules = []` (no `--header` rules); see the note at the end of the file for what a
+  version with rules needs.  The `bs "…"` literals of the model reduce in the kernel only, hence
+  `decide +kernel` for closed facts and for the concrete examples (`exReq`, `exReqUpgrade`,
+  `exReqChains`, `exReqEmptyAE`, `exCfg`, `exCfgUp`, `exCtx` of `Lemmas/ReqExamples.lean`).
+  `isFwd o` = the outcome is `.forwarded`; `checkFwd o p` = `p` holds of the forwarded message.
 -/
-import FwdVerif.Model.Req
+import FwdVerif.Lemmas.ReqExamples
+import FwdVerif.Lemmas.ReqRules
 
 namespace FwdVerif
 namespace C01
 
-open Req
+open Req Ascii
+open C16 (HMap NoRename)
 
-/-- a request with a non-empty body of known length is always forwarded with a Content-Length -/
-theorem c01_known_length_is_declared (m : Bytes) (n : Int) (h : n > 0) : sendsContentLength m n = true := by
-  simp [sendsContentLength, h]
+variable {cfg : Cfg} {ctx : Ctx} {r : Request} {hop : Hop} {out : OutMsg}
+
+/-! ## 1–3 request line and Host -/
+
+/-- the next hop receives the client's method -/
+theorem c01_method (h : processRequest cfg ctx r = .forwarded hop out) : out.method = r.method := by
+  obtain ⟨g0, h3, h4, auth, t⟩ := processRequest_forwarded h
+  rw [t.out, writeRequest_method]
+  exact t.spec.method
+
+-- POST, repeated/nominated/hop-by-hop fields, chunked body with a trailer: forwarded as POST
+example : isFwd (processRequest exCfg exCtx exReq) = true ∧
+    checkFwd (processRequest exCfg exCtx exReq) (fun out => out.method == exReq.method) = true := by
+  decide +kernel
+
+/-- an origin (or a CONNECT-less direct hop) receives the client's path and query, byte for byte -/
+theorem c01_target_direct (h : processRequest cfg ctx r = .forwarded hop out) {a : Bytes}
+    (hd : hop = .direct a) : out.target = r.path ++ queryPart r := by
+  obtain ⟨g0, h3, h4, auth, t⟩ := processRequest_forwarded h
+  rw [t.out, writeRequest_target, hd]
+  exact t.spec.requestURI ctx _
+
+example : checkFwd (processRequest exCfg exCtx exReq) (fun out =>
+      out.target == bs "/a/b?x=1&y=%2f") = true ∧
+    (match processRequest exCfg exCtx exReq with
+      | .forwarded (.direct a) _ => a == bs "origin.test:8080" | _ => false) = true := by
+  decide +kernel
+
+/-- an upstream HTTP proxy receives the absolute form `http://host/path?query` -/
+theorem c01_target_proxy (h : processRequest cfg ctx r = .forwarded hop out) {hp : Bytes}
+    (hd : hop = .proxy hp) :
+    out.target = bs "http" ++ bs "://" ++ hostOf r ++ (r.path ++ queryPart r) := by
+  obtain ⟨g0, h3, h4, auth, t⟩ := processRequest_forwarded h
+  rcases t.hop with hh | ⟨hp', _, hs⟩
+  · rw [hd] at hh; cases hh
+  · rw [t.out, writeRequest_target, hd]
+    show (if (fixup ctx g0).scheme == bs "http" then
+        (fixup ctx g0).scheme ++ bs "://" ++ (fixup ctx g0).host ++ requestURI _ else requestURI _) = _
+    rw [hs, t.spec.requestURI ctx _, t.spec.fixup_host]
+    simp
+
+example : checkFwd (processRequest exCfgUp exCtx exReq) (fun out =>
+      out.target == bs "http://origin.test:8080/a/b?x=1&y=%2f") = true ∧
+    (match processRequest exCfgUp exCtx exReq with
+      | .forwarded (.proxy hp) _ => hp == bs "upstream.test:3128" | _ => false) = true := by
+  decide +kernel
+
+/-- whatever the hop, the request-target ends with the client's path and query -/
+theorem c01_target_suffix (h : processRequest cfg ctx r = .forwarded hop out) :
+    ∃ pre, out.target = pre ++ (r.path ++ queryPart r) := by
+  cases hop with
+  | direct a => exact ⟨[], by rw [c01_target_direct h rfl]; rfl⟩
+  | proxy hp => exact ⟨_, c01_target_proxy h rfl⟩
+
+/-- Host is the authority of an absolute-form target, else the client's first `Host` value -/
+theorem c01_host (h : processRequest cfg ctx r = .forwarded hop out) (hr : cfg.rules = []) :
+    outValues out (bs "host") = [hostOf r] := by
+  obtain ⟨g0, h3, h4, auth, t⟩ := processRequest_forwarded h
+  exact t.outValues_host hr
+
+theorem c01_host_absolute (h : processRequest cfg ctx r = .forwarded hop out) (hr : cfg.rules = [])
+    {s a : Bytes} (ht : r.target = .absolute s a) (ha : a ≠ []) :
+    outValues out (bs "host") = [a] := by
+  rw [c01_host h hr]
+  unfold hostOf authorityOf
+  rw [ht]
+  cases a with
+  | nil => exact absurd rfl ha
+  | cons c cs => rfl
+
+theorem c01_host_origin (h : processRequest cfg ctx r = .forwarded hop out) (hr : cfg.rules = [])
+    (ht : r.target = .origin) : outValues out (bs "host") = [firstValue r (bs "host")] := by
+  rw [c01_host h hr]
+  unfold hostOf authorityOf
+  rw [ht]
+  rfl
+
+-- origin-form: the Host line; absolute-form: the authority, the client's `Host: other.test` is ignored
+example : exCfg.rules = [] ∧ exReq.target = .origin ∧
+    checkFwd (processRequest exCfg exCtx exReq) (fun out =>
+      outValues out (bs "host") == [bs "origin.test:8080"]) = true ∧
+    exReqUpgrade.target = .absolute (bs "http") (bs "origin.test") ∧
+    isFwd (processRequest exCfg exCtx exReqUpgrade) = true ∧
+    checkFwd (processRequest exCfg exCtx exReqUpgrade) (fun out =>
+      outValues out (bs "host") == [bs "origin.test"]) = true := by decide +kernel
+
+/-! ## 4 end-to-end fields -/
+
+/-- every field that is neither hop-by-hop for this request nor managed reaches the next hop with
+    the same values in the same order (first version: no configured header rules).
+    `n` ranges over lower-case token names; `c01_wf_names_are_tokens` says no other name occurs in
+    a request Go accepts. -/
+theorem c01_end_to_end_preserved (h : processRequest cfg ctx r = .forwarded hop out)
+    (hr : cfg.rules = []) {n : Bytes} (hn : n.all isTokenByte = true) (hl : lower n = n)
+    (hh : n ∉ hopByHopLower) (hm : n ∉ managedLower) (hnom : n ∉ nominated r) :
+    outValues out n = inValues r n := by
+  obtain ⟨g0, h3, h4, auth, t⟩ := processRequest_forwarded h
+  have hL : n ∉ hopByHopLower ++ managedLower := by simp [hh, hm]
+  rw [t.outValues_other hr hn hl (fun hw => hm (writerNames_managed _ hw))]
+  exact t.hget_other hr hn hl hL hnom
+
+-- `X-A: 1`, `x-a: 2`, `X-a: 1` (three spellings, interleaved with other lines) arrive as 1, 2, 1;
+-- two `Cookie` lines arrive in order
+example : (bs "x-a").all isTokenByte = true ∧ lower (bs "x-a") = bs "x-a" ∧
+    bs "x-a" ∉ hopByHopLower ∧ bs "x-a" ∉ managedLower ∧ bs "x-a" ∉ nominated exReq ∧
+    inValues exReq (bs "x-a") = [bs "1", bs "2", bs "1"] ∧
+    checkFwd (processRequest exCfg exCtx exReq) (fun out =>
+      outValues out (bs "x-a") == [bs "1", bs "2", bs "1"]) = true ∧
+    bs "cookie" ∉ nominated exReqUpgrade ∧
+    checkFwd (processRequest exCfg exCtx exReqUpgrade) (fun out =>
+      outValues out (bs "cookie") == [bs "a=1", bs "b=2"]) = true := by decide +kernel
+
+/-- stronger version: with configured `--header` rules, none of them a `%name` rule (F9 of C16:
+    `%name` breaks the canonical-key invariant the other steps rely on), for every name that no
+    rule touches (`ruleTouches`: a rule whose name equals `n` up to case, or a prefix rule whose
+    prefix matches `n`) -/
+theorem c01_end_to_end_preserved_rules (h : processRequest cfg ctx r = .forwarded hop out)
+    (hnr : NoRename cfg.rules) {n : Bytes} (hn : n.all isTokenByte = true) (hl : lower n = n)
+    (hh : n ∉ hopByHopLower) (hm : n ∉ managedLower) (hnom : n ∉ nominated r)
+    (hrules : ∀ ρ ∈ cfg.rules, ruleTouches n ρ = false) :
+    outValues out n = inValues r n := by
+  obtain ⟨g0, h3, h4, auth, t⟩ := processRequest_forwarded h
+  exact t.end_to_end_rules hnr hn hl (by simp [hh, hm]) hnom hrules
+
+-- rules `-x-hop`, `-x-internal-*`, `X-Added: 1`, `X-Empty;` do not touch `x-a`
+example : NoRename exCfgRules.rules ∧ (∀ ρ ∈ exCfgRules.rules, ruleTouches (bs "x-a") ρ = false) ∧
+    isFwd (processRequest exCfgRules exCtx exReq) = true ∧
+    checkFwd (processRequest exCfgRules exCtx exReq) (fun out =>
+      outValues out (bs "x-a") == [bs "1", bs "2", bs "1"] &&
+      outValues out (bs "x-added") == [bs "1"]) = true := by decide +kernel
+
+/-- in a well-formed request only token names carry values -/
+theorem c01_wf_names_are_tokens (wf : WFReq r) {n : Bytes} (hn : ¬ n.all isTokenByte = true) :
+    inValues r n = [] := by
+  unfold inValues
+  rw [List.filter_eq_nil_iff.mpr]
+  · rfl
+  · intro f hf hk
+    simp only [beq_iff_eq] at hk
+    apply hn
+    rw [← hk, C16.all_token_lower]
+    exact wf f hf
+
+example : WFReq exReq ∧ WFReq exReqUpgrade ∧ WFReq exReqChains ∧ WFReq exReqEmptyAE ∧
+    ¬ (bs "x a").all isTokenByte = true := by decide +kernel
+
+/-! ## 5 hop-by-hop fields -/
+
+/-- a static hop-by-hop name or a name nominated by `Connection` (other than the managed ones,
+    which have their own clauses) does not reach the next hop -/
+theorem c01_hop_by_hop_removed (h : processRequest cfg ctx r = .forwarded hop out)
+    (hr : cfg.rules = []) {n : Bytes} (hn : n.all isTokenByte = true) (hl : lower n = n)
+    (hm : n ∉ managedLower) (hrem : n ∈ hopByHopLower ∨ n ∈ nominated r) :
+    outValues out n = [] := by
+  obtain ⟨g0, h3, h4, auth, t⟩ := processRequest_forwarded h
+  rw [t.outValues_other hr hn hl (fun hw => hm (writerNames_managed _ hw))]
+  exact t.hget_removed hr hn hl hm hrem
+
+-- `X-Hop` is nominated by `Connection: X-Hop, close`; `Keep-Alive` and `TE` are static
+example : bs "x-hop" ∈ nominated exReq ∧ bs "x-hop" ∉ managedLower ∧
+    inValues exReq (bs "x-hop") = [bs "secret"] ∧
+    bs "keep-alive" ∈ hopByHopLower ∧ bs "keep-alive" ∉ managedLower ∧
+    bs "te" ∈ hopByHopLower ∧ bs "te" ∉ managedLower ∧
+    checkFwd (processRequest exCfg exCtx exReq) (fun out =>
+      outValues out (bs "x-hop") == [] && outValues out (bs "keep-alive") == [] &&
+      outValues out (bs "te") == []) = true := by decide +kernel
+
+theorem c01_hop_by_hop_removed_rules (h : processRequest cfg ctx r = .forwarded hop out)
+    (hnr : NoRename cfg.rules) {n : Bytes} (hn : n.all isTokenByte = true) (hl : lower n = n)
+    (hm : n ∉ managedLower) (hrem : n ∈ hopByHopLower ∨ n ∈ nominated r)
+    (hrules : ∀ ρ ∈ cfg.rules, ruleTouches n ρ = false) :
+    outValues out n = [] := by
+  obtain ⟨g0, h3, h4, auth, t⟩ := processRequest_forwarded h
+  exact t.removed_rules hnr hn hl hm hrem hrules
+
+example : (∀ ρ ∈ exCfgRules.rules, ruleTouches (bs "keep-alive") ρ = false) ∧
+    checkFwd (processRequest exCfgRules exCtx exReq) (fun out =>
+      outValues out (bs "keep-alive") == []) = true := by decide +kernel
+
+/-- the only `Connection` values the next hop can see are the proxy's own `close` and, when an
+    upgrade is requested, `Upgrade` -/
+theorem c01_connection_values (h : processRequest cfg ctx r = .forwarded hop out)
+    (hr : cfg.rules = []) :
+    ∀ v ∈ outValues out (bs "connection"),
+      v = bs "close" ∨ (v = bs "Upgrade" ∧ upgradeRequested r ≠ []) := by
+  obtain ⟨g0, h3, h4, auth, t⟩ := processRequest_forwarded h
+  intro v hv
+  obtain ⟨cl, hcl, ho⟩ := t.outValues_conn hr
+  have hc : hget (finish cfg (upgradeType g0.header) h4) (bs "Connection") =
+      if (upgradeRequested r).isEmpty then [] else [bs "Upgrade"] := by
+    rw [finish_eq, hr]
+    show hget (finishTail cfg (upgradeType g0.header) h4) (bs "Connection") = _
+    rw [hget_finishTail_conn, t.hget4_conn, t.upType]
+  rw [ho, hc] at hv
+  rcases List.mem_append.mp hv with hv | hv
+  · left
+    rcases hcl with hcl | hcl <;> rw [hcl] at hv
+    · simp at hv
+    · simpa using hv
+  · right
+    split at hv
+    · simp at hv
+    · rename_i hne
+      refine ⟨by simpa using hv, ?_⟩
+      intro he
+      rw [he] at hne
+      exact hne rfl
+
+-- the client's `Connection: X-Hop, close` becomes the proxy's own `close`; an upgrade request
+-- gets `Connection: Upgrade`
+example : upgradeRequested exReq = [] ∧
+    checkFwd (processRequest exCfg exCtx exReq) (fun out =>
+      outValues out (bs "connection") == [bs "close"]) = true ∧
+    upgradeRequested exReqUpgrade = bs "websocket" ∧
+    checkFwd (processRequest exCfg exCtx exReqUpgrade) (fun out =>
+      outValues out (bs "connection") == [bs "Upgrade"]) = true := by decide +kernel
+
+/-- `Upgrade` reaches the next hop only as the upgrade the client requested -/
+theorem c01_upgrade_values (h : processRequest cfg ctx r = .forwarded hop out)
+    (hr : cfg.rules = []) :
+    outValues out (bs "upgrade") =
+      if (upgradeRequested r).isEmpty then [] else [upgradeRequested r] := by
+  obtain ⟨g0, h3, h4, auth, t⟩ := processRequest_forwarded h
+  rw [t.outValues_other hr (n := bs "upgrade") (by decide +kernel) (by decide +kernel)
+      (by decide +kernel),
+    show canonicalKey (bs "upgrade") = bs "Upgrade" from by decide +kernel, finish_eq, hr]
+  show hget (finishTail cfg (upgradeType g0.header) h4) (bs "Upgrade") = _
+  rw [hget_finishTail_upg, t.upType]
+  have : hget h4 (bs "Upgrade") = [] := by
+    rw [hget_eq, t.get4 (by decide +kernel),
+      t.get3_removed (Or.inr (by decide +kernel)) (by decide +kernel) (by decide +kernel)]
+    rfl
+  rw [this]
+
+example : checkFwd (processRequest exCfg exCtx exReqUpgrade) (fun out =>
+      outValues out (bs "upgrade") == [bs "websocket"]) = true ∧
+    checkFwd (processRequest exCfg exCtx exReq) (fun out =>
+      outValues out (bs "upgrade") == []) = true := by decide +kernel
+
+/-! ## 9 User-Agent -/
+
+/-- no User-Agent is invented: without a client User-Agent line (or with a nominated one) the
+    next hop sees none -/
+theorem c01_no_user_agent_invented (h : processRequest cfg ctx r = .forwarded hop out)
+    (hr : cfg.rules = [])
+    (hua : inValues r (bs "user-agent") = [] ∨ bs "user-agent" ∈ nominated r) :
+    outValues out (bs "user-agent") = [] := by
+  obtain ⟨g0, h3, h4, auth, t⟩ := processRequest_forwarded h
+  rw [t.outValues_ua hr, finish_eq, hr]
+  show vals (uaPiece (finishTail cfg (upgradeType g0.header) h4)) _ = _
+  apply vals_uaPiece_finishTail
+  have h3' := t.hget3_name (n := bs "user-agent") (by decide +kernel) (by decide +kernel)
+    (by decide +kernel) (by decide +kernel) (by decide +kernel) (by decide +kernel)
+  rw [show canonicalKey (bs "user-agent") = bs "User-Agent" from by decide +kernel] at h3'
+  rw [hget_congr (t.get4 (by decide +kernel)), h3']
+  unfold survivingValues
+  split
+  · rfl
+  · rename_i hnn
+    rcases hua with hua | hua
+    · exact hua
+    · exact absurd hua hnn
+
+-- no User-Agent line: none at the next hop (Go's default `Go-http-client/1.1` is suppressed);
+-- a client User-Agent is passed on
+example : inValues exReqUpgrade (bs "user-agent") = [] ∧
+    checkFwd (processRequest exCfg exCtx exReqUpgrade) (fun out =>
+      outValues out (bs "user-agent") == []) = true ∧
+    checkFwd (processRequest exCfg exCtx exReq) (fun out =>
+      outValues out (bs "user-agent") == [bs "curl/8"]) = true := by decide +kernel
+
+/-! ## 6 Via and X-Forwarded-For -/
+
+/-- Via, exactly: the first surviving client value, then the proxy's element -/
+theorem c01_via_exact (h : processRequest cfg ctx r = .forwarded hop out) (hr : cfg.rules = []) :
+    outValues out (bs "via") =
+      [(if (survivingFirst r (bs "via")).isEmpty then [] else survivingFirst r (bs "via") ++ bs ", ")
+        ++ viaElement cfg r] := by
+  obtain ⟨g0, h3, h4, auth, t⟩ := processRequest_forwarded h
+  rw [t.outValues_other hr (n := bs "via") (by decide +kernel) (by decide +kernel)
+      (by decide +kernel),
+    show canonicalKey (bs "via") = bs "Via" from by decide +kernel, t.hget8_via hr]
+  simp [viaValue, viaElement, List.append_assoc]
+
+/-- one Via element is appended to the client's FIRST Via value (what the code does, F11a) -/
+theorem c01_via_appended (h : processRequest cfg ctx r = .forwarded hop out) (hr : cfg.rules = [])
+    (hnom : bs "via" ∉ nominated r) :
+    outValues out (bs "via") =
+      [(if (firstValue r (bs "via")).isEmpty then [] else firstValue r (bs "via") ++ bs ", ")
+        ++ (protoText r.minor ++ [32] ++ cfg.tag)] := by
+  rw [c01_via_exact h hr]
+  simp [survivingFirst, survivingValues, hnom, firstValue, viaElement]
+
+example : bs "via" ∉ nominated exReq ∧ firstValue exReq (bs "via") = bs "1.0 edge" ∧
+    checkFwd (processRequest exCfg exCtx exReq) (fun out =>
+      outValues out (bs "via") == [bs "1.0 edge, 1.1 fwd-0123456789abcdef0123"]) = true ∧
+    checkFwd (processRequest exCfg exCtx exReqUpgrade) (fun out =>
+      outValues out (bs "via") == [bs "1.1 fwd-0123456789abcdef0123"]) = true := by decide +kernel
+
+/-- full-strength clause: the whole client chain (all non-empty Via lines, in order) followed by
+    the proxy's element — FALSE of the unchanged code (F11a), see the witness -/
+def c01_via_full : Prop :=
+  ∀ (cfg : Cfg) (ctx : Ctx) (r : Request) (hop : Hop) (out : OutMsg),
+    processRequest cfg ctx r = .forwarded hop out → cfg.rules = [] → bs "via" ∉ nominated r →
+    outValues out (bs "via") =
+      [joinWith (bs ", ") ((inValues r (bs "via")).filter (fun v => !v.isEmpty) ++ [viaElement cfg r])]
+
+/-- the full clause for requests with at most one Via line -/
+theorem c01_via_appended_partial (h : processRequest cfg ctx r = .forwarded hop out)
+    (hr : cfg.rules = []) (hnom : bs "via" ∉ nominated r)
+    (hone : (inValues r (bs "via")).length ≤ 1) :
+    outValues out (bs "via") =
+      [joinWith (bs ", ") ((inValues r (bs "via")).filter (fun v => !v.isEmpty) ++ [viaElement cfg r])] := by
+  rw [c01_via_appended h hr hnom]
+  unfold firstValue viaElement
+  rcases hv : inValues r (bs "via") with _ | ⟨v, _ | ⟨w, rest⟩⟩
+  · simp [joinWith]
+  · by_cases he : v.isEmpty = true
+    · simp [joinWith, he]
+    · simp [joinWith, he, List.append_assoc]
+  · rw [hv] at hone
+    simp at hone
+
+example : (inValues exReq (bs "via")).length ≤ 1 ∧ bs "via" ∉ nominated exReq := by decide +kernel
+
+/-- two Via lines `1.0 a`, `1.1 b`: the next hop sees `1.0 a, 1.1 <tag>` — `1.1 b` is lost -/
+theorem c01_via_witness :
+    isFwd (processRequest exCfg exCtx exReqChains) = true ∧ bs "via" ∉ nominated exReqChains ∧
+    checkFwd (processRequest exCfg exCtx exReqChains) (fun out =>
+      outValues out (bs "via") == [bs "1.0 a, 1.1 fwd-0123456789abcdef0123"]) = true ∧
+    checkFwd (processRequest exCfg exCtx exReqChains) (fun out =>
+      decide (outValues out (bs "via") =
+        [joinWith (bs ", ") ((inValues exReqChains (bs "via")).filter (fun v => !v.isEmpty)
+          ++ [viaElement exCfg exReqChains])])) = false := by decide +kernel
+
+theorem c01_via_full_false : ¬ c01_via_full := by
+  intro hfull
+  have := checkFwd_of (o := processRequest exCfg exCtx exReqChains)
+    (p := fun out => decide (outValues out (bs "via") =
+        [joinWith (bs ", ") ((inValues exReqChains (bs "via")).filter (fun v => !v.isEmpty)
+          ++ [viaElement exCfg exReqChains])]))
+    (fun hop out ho => decide_eq_true (hfull _ _ _ hop out ho rfl c01_via_witness.2.1))
+  rw [c01_via_witness.2.2.2] at this
+  exact Bool.false_ne_true this
+
+/-- X-Forwarded-For, exactly: the first surviving client value, then the client address -/
+theorem c01_xff_exact (h : processRequest cfg ctx r = .forwarded hop out) (hr : cfg.rules = []) :
+    outValues out (bs "x-forwarded-for") =
+      [if (survivingFirst r (bs "x-forwarded-for")).isEmpty then ctx.clientIP
+       else survivingFirst r (bs "x-forwarded-for") ++ bs ", " ++ ctx.clientIP] := by
+  obtain ⟨g0, h3, h4, auth, t⟩ := processRequest_forwarded h
+  rw [t.outValues_other hr (n := bs "x-forwarded-for") (by decide +kernel) (by decide +kernel)
+      (by decide +kernel),
+    show canonicalKey (bs "x-forwarded-for") = canonicalKey (bs "X-Forwarded-For") from by
+      decide +kernel,
+    t.hget8_xff hr]
+
+/-- the client address is appended to the client's FIRST X-Forwarded-For value (F11b) -/
+theorem c01_xff_appended (h : processRequest cfg ctx r = .forwarded hop out) (hr : cfg.rules = [])
+    (hnom : bs "x-forwarded-for" ∉ nominated r) :
+    outValues out (bs "x-forwarded-for") =
+      [if (firstValue r (bs "x-forwarded-for")).isEmpty then ctx.clientIP
+       else firstValue r (bs "x-forwarded-for") ++ bs ", " ++ ctx.clientIP] := by
+  rw [c01_xff_exact h hr]
+  simp [survivingFirst, survivingValues, hnom, firstValue]
+
+example : bs "x-forwarded-for" ∉ nominated exReq ∧
+    checkFwd (processRequest exCfg exCtx exReq) (fun out =>
+      outValues out (bs "x-forwarded-for") == [bs "198.51.100.1, 192.0.2.7"]) = true ∧
+    checkFwd (processRequest exCfg exCtx exReqUpgrade) (fun out =>
+      outValues out (bs "x-forwarded-for") == [bs "192.0.2.7"]) = true := by decide +kernel
+
+/-- full-strength clause: all non-empty client X-Forwarded-For lines, then the client address —
+    FALSE of the unchanged code (F11b) -/
+def c01_xff_full : Prop :=
+  ∀ (cfg : Cfg) (ctx : Ctx) (r : Request) (hop : Hop) (out : OutMsg),
+    processRequest cfg ctx r = .forwarded hop out → cfg.rules = [] →
+    bs "x-forwarded-for" ∉ nominated r →
+    outValues out (bs "x-forwarded-for") =
+      [joinWith (bs ", ") ((inValues r (bs "x-forwarded-for")).filter (fun v => !v.isEmpty)
+        ++ [ctx.clientIP])]
+
+theorem c01_xff_appended_partial (h : processRequest cfg ctx r = .forwarded hop out)
+    (hr : cfg.rules = []) (hnom : bs "x-forwarded-for" ∉ nominated r)
+    (hone : (inValues r (bs "x-forwarded-for")).length ≤ 1) :
+    outValues out (bs "x-forwarded-for") =
+      [joinWith (bs ", ") ((inValues r (bs "x-forwarded-for")).filter (fun v => !v.isEmpty)
+        ++ [ctx.clientIP])] := by
+  rw [c01_xff_appended h hr hnom]
+  unfold firstValue
+  rcases hv : inValues r (bs "x-forwarded-for") with _ | ⟨v, _ | ⟨w, rest⟩⟩
+  · simp [joinWith]
+  · by_cases he : v.isEmpty = true
+    · simp [joinWith, he]
+    · simp [joinWith, he, List.append_assoc]
+  · rw [hv] at hone
+    simp at hone
+
+example : (inValues exReq (bs "x-forwarded-for")).length ≤ 1 ∧
+    bs "x-forwarded-for" ∉ nominated exReq := by decide +kernel
+
+/-- two X-Forwarded-For lines: the second one is lost -/
+theorem c01_xff_witness :
+    isFwd (processRequest exCfg exCtx exReqChains) = true ∧
+    bs "x-forwarded-for" ∉ nominated exReqChains ∧
+    checkFwd (processRequest exCfg exCtx exReqChains) (fun out =>
+      outValues out (bs "x-forwarded-for") == [bs "198.51.100.1, 192.0.2.7"]) = true ∧
+    checkFwd (processRequest exCfg exCtx exReqChains) (fun out =>
+      decide (outValues out (bs "x-forwarded-for") =
+        [joinWith (bs ", ") ((inValues exReqChains (bs "x-forwarded-for")).filter
+          (fun v => !v.isEmpty) ++ [exCtx.clientIP])])) = false := by decide +kernel
+
+theorem c01_xff_full_false : ¬ c01_xff_full := by
+  intro hfull
+  have := checkFwd_of (o := processRequest exCfg exCtx exReqChains)
+    (p := fun out => decide (outValues out (bs "x-forwarded-for") =
+        [joinWith (bs ", ") ((inValues exReqChains (bs "x-forwarded-for")).filter
+          (fun v => !v.isEmpty) ++ [exCtx.clientIP])]))
+    (fun hop out ho => decide_eq_true (hfull _ _ _ hop out ho rfl c01_xff_witness.2.1))
+  rw [c01_xff_witness.2.2.2] at this
+  exact Bool.false_ne_true this
+
+/-! ## 7 X-Forwarded-Proto / -Host / -Url -/
+
+/-- X-Forwarded-Proto: the client's values when the first one is non-empty and the name is not
+    nominated, else the scheme the proxy works with -/
+theorem c01_forwarded_proto (h : processRequest cfg ctx r = .forwarded hop out)
+    (hr : cfg.rules = []) :
+    outValues out (bs "x-forwarded-proto") =
+      if (firstValue r (bs "x-forwarded-proto")).isEmpty ∨ bs "x-forwarded-proto" ∈ nominated r
+      then [effScheme ctx r] else inValues r (bs "x-forwarded-proto") := by
+  obtain ⟨g0, h3, h4, auth, t⟩ := processRequest_forwarded h
+  rw [t.outValues_other hr (n := bs "x-forwarded-proto") (by decide +kernel) (by decide +kernel)
+      (by decide +kernel),
+    show canonicalKey (bs "x-forwarded-proto") = canonicalKey (bs "X-Forwarded-Proto") from by
+      decide +kernel,
+    t.hget8_proto hr]
+
+/-- X-Forwarded-Host: unchanged when present (and not nominated), else the request's host -/
+theorem c01_forwarded_host (h : processRequest cfg ctx r = .forwarded hop out)
+    (hr : cfg.rules = []) :
+    outValues out (bs "x-forwarded-host") =
+      if (firstValue r (bs "x-forwarded-host")).isEmpty ∨ bs "x-forwarded-host" ∈ nominated r
+      then [hostOf r] else inValues r (bs "x-forwarded-host") := by
+  obtain ⟨g0, h3, h4, auth, t⟩ := processRequest_forwarded h
+  rw [t.outValues_other hr (n := bs "x-forwarded-host") (by decide +kernel) (by decide +kernel)
+      (by decide +kernel),
+    show canonicalKey (bs "x-forwarded-host") = canonicalKey (bs "X-Forwarded-Host") from by
+      decide +kernel,
+    t.hget8_host hr]
+
+/-- X-Forwarded-Url: unchanged when present (and not nominated), else the full URL -/
+theorem c01_forwarded_url (h : processRequest cfg ctx r = .forwarded hop out)
+    (hr : cfg.rules = []) :
+    outValues out (bs "x-forwarded-url") =
+      if (firstValue r (bs "x-forwarded-url")).isEmpty ∨ bs "x-forwarded-url" ∈ nominated r
+      then [urlOf ctx r] else inValues r (bs "x-forwarded-url") := by
+  obtain ⟨g0, h3, h4, auth, t⟩ := processRequest_forwarded h
+  rw [t.outValues_other hr (n := bs "x-forwarded-url") (by decide +kernel) (by decide +kernel)
+      (by decide +kernel),
+    show canonicalKey (bs "x-forwarded-url") = canonicalKey (bs "X-Forwarded-Url") from by
+      decide +kernel,
+    t.hget8_url hr]
+
+-- filled in when absent (exReq); a client-supplied X-Forwarded-Proto is kept (exReqUpgrade)
+example : checkFwd (processRequest exCfg exCtx exReq) (fun out =>
+      outValues out (bs "x-forwarded-proto") == [bs "http"] &&
+      outValues out (bs "x-forwarded-host") == [bs "origin.test:8080"] &&
+      outValues out (bs "x-forwarded-url") == [bs "http://origin.test:8080/a/b?x=1&y=%2f"]) = true ∧
+    inValues exReqUpgrade (bs "x-forwarded-proto") = [bs "https"] ∧
+    checkFwd (processRequest exCfg exCtx exReqUpgrade) (fun out =>
+      outValues out (bs "x-forwarded-proto") == [bs "https"] &&
+      outValues out (bs "x-forwarded-url") == [bs "http://origin.test/ws"]) = true := by
+  decide +kernel
+
+/-! ## 8 Accept-Encoding -/
+
+/-- Accept-Encoding, exactly: the surviving client values, then `gzip` iff the (surviving) first
+    Accept-Encoding and Range values are empty and the method is not HEAD -/
+theorem c01_accept_encoding_exact (h : processRequest cfg ctx r = .forwarded hop out)
+    (hr : cfg.rules = []) :
+    outValues out (bs "accept-encoding") =
+      survivingValues r (bs "accept-encoding") ++
+        (if (survivingFirst r (bs "accept-encoding")).isEmpty &&
+            (survivingFirst r (bs "range")).isEmpty && r.method != bs "HEAD"
+         then [bs "gzip"] else []) := by
+  obtain ⟨g0, h3, h4, auth, t⟩ := processRequest_forwarded h
+  exact t.outValues_ae hr
+
+/-- a client Accept-Encoding whose first value is not empty is passed on unchanged -/
+theorem c01_accept_encoding (h : processRequest cfg ctx r = .forwarded hop out)
+    (hr : cfg.rules = []) (hnom : bs "accept-encoding" ∉ nominated r)
+    (hne : (firstValue r (bs "accept-encoding")).isEmpty = false) :
+    outValues out (bs "accept-encoding") = inValues r (bs "accept-encoding") := by
+  rw [c01_accept_encoding_exact h hr]
+  have : survivingFirst r (bs "accept-encoding") = firstValue r (bs "accept-encoding") := by
+    simp [survivingFirst, survivingValues, hnom, firstValue]
+  rw [this, hne]
+  simp [survivingValues, hnom]
+
+/-- the only value the proxy can add to Accept-Encoding is `gzip` -/
+theorem c01_accept_encoding_only_gzip (h : processRequest cfg ctx r = .forwarded hop out)
+    (hr : cfg.rules = []) :
+    ∃ extra, (extra = [] ∨ extra = [bs "gzip"]) ∧
+      outValues out (bs "accept-encoding") = survivingValues r (bs "accept-encoding") ++ extra := by
+  rw [c01_accept_encoding_exact h hr]
+  split
+  · exact ⟨_, Or.inr rfl, rfl⟩
+  · exact ⟨_, Or.inl rfl, rfl⟩
+
+-- `Accept-Encoding: br` is kept as is; without one the transport adds `gzip`
+example : bs "accept-encoding" ∉ nominated exReq ∧
+    (firstValue exReq (bs "accept-encoding")).isEmpty = false ∧
+    checkFwd (processRequest exCfg exCtx exReq) (fun out =>
+      outValues out (bs "accept-encoding") == [bs "br"]) = true ∧
+    inValues exReqUpgrade (bs "accept-encoding") = [] ∧
+    checkFwd (processRequest exCfg exCtx exReqUpgrade) (fun out =>
+      outValues out (bs "accept-encoding") == [bs "gzip"]) = true := by decide +kernel
+
+/-- full-strength clause ("gzip may be added when the client sent none"): a client that sent an
+    Accept-Encoding line keeps exactly its values — FALSE of the unchanged code (F23) -/
+def c01_accept_encoding_full : Prop :=
+  ∀ (cfg : Cfg) (ctx : Ctx) (r : Request) (hop : Hop) (out : OutMsg),
+    processRequest cfg ctx r = .forwarded hop out → cfg.rules = [] →
+    bs "accept-encoding" ∉ nominated r → inValues r (bs "accept-encoding") ≠ [] →
+    outValues out (bs "accept-encoding") = inValues r (bs "accept-encoding")
+
+/-- `Accept-Encoding:` with an empty value (no content-coding acceptable) gets `gzip` added -/
+theorem c01_accept_encoding_witness :
+    isFwd (processRequest exCfg exCtx exReqEmptyAE) = true ∧
+    bs "accept-encoding" ∉ nominated exReqEmptyAE ∧
+    inValues exReqEmptyAE (bs "accept-encoding") = [[]] ∧
+    checkFwd (processRequest exCfg exCtx exReqEmptyAE) (fun out =>
+      outValues out (bs "accept-encoding") == [[], bs "gzip"]) = true ∧
+    checkFwd (processRequest exCfg exCtx exReqEmptyAE) (fun out =>
+      decide (outValues out (bs "accept-encoding") = inValues exReqEmptyAE (bs "accept-encoding")))
+      = false := by decide +kernel
+
+theorem c01_accept_encoding_full_false : ¬ c01_accept_encoding_full := by
+  intro hfull
+  have := checkFwd_of (o := processRequest exCfg exCtx exReqEmptyAE)
+    (p := fun out => decide (outValues out (bs "accept-encoding") =
+      inValues exReqEmptyAE (bs "accept-encoding")))
+    (fun hop out ho => decide_eq_true (hfull _ _ _ hop out ho rfl c01_accept_encoding_witness.2.1
+      (by rw [c01_accept_encoding_witness.2.2.1]; exact List.cons_ne_nil _ _)))
+  rw [c01_accept_encoding_witness.2.2.2.2] at this
+  exact Bool.false_ne_true this
+
+/-! ## 10 totality -/
+
+/-- the pipeline never gets stuck: every request has one of the four outcomes -/
+theorem c01_refused_or_forwarded_total (cfg : Cfg) (ctx : Ctx) (r : Request) :
+    processRequest cfg ctx r = .unreadable ∨ (∃ st why, processRequest cfg ctx r = .refused st why) ∨
+      processRequest cfg ctx r = .badRequest ∨
+      ∃ hop out, processRequest cfg ctx r = .forwarded hop out := by
+  cases processRequest cfg ctx r with
+  | unreadable => exact Or.inl rfl
+  | refused st why => exact Or.inr (Or.inl ⟨st, why, rfl⟩)
+  | badRequest => exact Or.inr (Or.inr (Or.inl rfl))
+  | forwarded hop out => exact Or.inr (Or.inr (Or.inr ⟨hop, out, rfl⟩))
+
+/-- a request inside the domain (`readRequest` succeeds) that no security modifier refuses, with
+    good framing and no Via loop, is forwarded -/
+theorem c01_forwarded_when_accepted {g0 : GoReq} {h3 h4 : HMap}
+    (hread : readRequest r = .ok g0) (hsec : securityCheck cfg (fixup ctx g0) = none)
+    (hframing : badFraming
+      (forwarded ctx { fixup ctx g0 with header := removeHopByHop g0.header }) = some h3)
+    (hloop : viaStep cfg g0.minor h3 = some h4) :
+    ∃ hop out, processRequest cfg ctx r = .forwarded hop out :=
+  processRequest_of_stages hread hsec hframing hloop
+
+/-- … and conversely a forwarded request passed every one of these stages -/
+theorem c01_forwarded_only_when_accepted (h : processRequest cfg ctx r = .forwarded hop out) :
+    ∃ g0 h3 h4, readRequest r = .ok g0 ∧ securityCheck cfg (fixup ctx g0) = none ∧
+      badFraming (forwarded ctx { fixup ctx g0 with header := removeHopByHop g0.header }) = some h3 ∧
+      viaStep cfg g0.minor h3 = some h4 := by
+  obtain ⟨g0, h3, h4, auth, t⟩ := processRequest_forwarded h
+  exact ⟨g0, h3, h4, t.read, t.sec, t.framing, t.via⟩
+
+example : isFwd (processRequest exCfg exCtx exReq) = true ∧
+    isFwd (processRequest exCfgUp exCtx exReq) = true ∧
+    -- a second Host line is outside the domain, a Via loop is refused
+    processRequest exCfg exCtx { exReq with fields := (bs "Host", bs "x") :: exReq.fields } = .unreadable ∧
+    processRequest exCfg exCtx
+      { exReqChains with fields := [(bs "Host", bs "o"), (bs "Via", bs "1.1 fwd-0123456789abcdef0123")] }
+      = .refused 400 .loop := by decide +kernel
+
+/-! ## 11 keep-alive connections -/
+
+/-- the model has no per-connection state: the outcome of the request at any position of a
+    keep-alive connection is that of the request on its own -/
+theorem c01_position_independent (cfg : Cfg) (ctx : Ctx) (pre post : List Request) (r : Request) :
+    (processConnection cfg ctx (pre ++ r :: post))[pre.length]? = some (processRequest cfg ctx r) := by
+  simp [processConnection]
+
+theorem c01_connection_pointwise (cfg : Cfg) (ctx : Ctx) (rs : List Request) (k : Nat) :
+    (processConnection cfg ctx rs)[k]? = rs[k]?.map (processRequest cfg ctx) := by
+  simp [processConnection]
+
+example : (processConnection exCfg exCtx [exReqChains, exReq, exReqUpgrade])[1]? =
+    some (processRequest exCfg exCtx exReq) := c01_position_independent exCfg exCtx [exReqChains] [exReqUpgrade] exReq
+
+/-
+  What is not proved here.
+  * Clauses 3 and 5b–9 (Host, Connection/Upgrade, User-Agent, Via, X-Forwarded-*, Accept-Encoding)
+    are stated for `cfg.rules = []`.  With rules the same statements hold when no rule touches the
+    name in question and no rule is a `%name` rule (the lemmas `Trace.get8_rules`/`inv8_rules` of
+    `Lemmas/ReqRules.lean` are what is needed; only the end-to-end and the removal clause have been
+    restated that way: `c01_end_to_end_preserved_rules`, `c01_hop_by_hop_removed_rules`).
+    What the rules themselves do to the names they touch is C16 (`c16_apply_spec_partial`).
+  * Site credentials (`cfg.siteCred`) only ever touch `Authorization` (a managed name); that they are
+    applied exactly when the client sent no `Authorization` is C06's clause and not restated here.
+  * Body bytes are opaque to the model (`Body`/framing are decided, payload is observed by the
+    correspondence runs only); `processConnection` works on parsed requests, not on the byte
+    stream (no `Lib/Http1` parser yet), so position independence is by definition.
+  * Names that are not RFC 7230 tokens are excluded by `n.all isTokenByte`; `c01_wf_names_are_tokens`
+    shows a request Go accepts (`WFReq`) has no values under such a name, the matching statement
+    for `outValues` is not proved.
+-/
 
 end C01
 end FwdVerif
